@@ -36,7 +36,8 @@ pub struct Scale {
 
 impl Scale {
     pub fn new(window: usize) -> Self {
-        Scale { ring: vec![0.0; window.max(1) + 1], pos: 0, vol_sum: 0.0 }
+        // windowless (EMA-family) indicators may carry astronomically large periods: the scale window is capped
+        Scale { ring: vec![0.0; window.clamp(1, 1 << 18) + 1], pos: 0, vol_sum: 0.0 }
     }
     pub fn reset(&mut self) {
         for x in self.ring.iter_mut() {
